@@ -41,7 +41,9 @@ RULE = (
     "points/weights at call time (no k-d tree): index set == {i: |p_i-c| <= r} outside a 1e-9 relative tie band, indices integer/in "
     "range/unique, lg.points == points[idx], lg.weights == weights[idx], lg.center == c; r=inf => whole grid; empty ball => size-0 "
     "LocalGrid. One case = one HISTORY on one instance: 5-30 random operations from {query, near-tie query, exact-tie query, empty query, "
-    "inf query, huge-radius query, points setter, weights setter, selection (+ query on the selected grid)}; instance kinds: Grid 1-D "
+    "inf query, huge-radius query, points setter, weights setter, selection (+ query on the selected grid), clone (copy.copy / deepcopy / "
+    "pickle protocol default and 2 via roundtrip.check_clone; the same query goes to clone and original, one of the two is then mutated by a "
+    "setter or - deepcopy/pickle only - in place, the other must keep its public state, and BOTH stay in the history)}; instance kinds: Grid 1-D "
     "(flat and (N,1)), 2-D, 3-D, all 26 OneDGrid rule classes + custom OneDGrid, AtomGrid (non-zero centre; constructor, from_pruned, "
     "from_preset), MolGrid, UniformGrid 2-D/3-D, Tensor1DGrids 2-D/3-D, PeriodicGrid without lattice 1-3-D, AngularGrid (4 methods), "
     "LocalGrid (nested). Weight vectors by class (uniform, positive, negative, some/mostly/all exact zeros of both signs, denormal/1e-300, "
